@@ -1,22 +1,24 @@
 (* C15 — Expired or ended sessions leave nothing behind.  Statements only. *)
 From MV Require Import Base.Val Session.Lifecycle Session.LifeSpec Session.LifeKF Session.LifeBase Session.LifeInv
-  Session.LifeProofs13 Session.LifeProofs15 Findings.FixedC15.
+  Session.LifeProofs13 Session.LifeProofs15 Session.LifeProofs15J Findings.FixedC15.
 Open Scope N_scope.
 
 Definition model_obs (k : caps) (ops : list op) : list obs := map obs_of (trace k init ops).
 
-(* Nothing of a discarded session survives in the topic index: after every history of operations
-   (connects, takeovers, disconnects, expiry ticks at arbitrary times, ...) every entry of the topic
-   index belongs to a session that is registered and holds that subscription; in particular an
-   identifier without a session has no entry, so a later connection with that identifier cannot
-   receive anything because of an old subscription.  This is the clause the pre-fix code violated
-   (Findings/FixedC15.v).
-   PARTIAL: the behavioural clause of the monitor (V15_unjustified: every delivery to a connection is
-   justified by a subscription of its current session) is checked on every run against the real
-   broker but not yet proved for the model. *)
-Theorem C15_nothing_left_partial : forall (k : caps) (ops : list op),
-  Forall (fun v => v_tag v <> V15_stale_index) (mon15 k (model_obs k ops)).
-Proof. exact mon15_no_stale_index. Qed.
+(* Nothing of a discarded session survives.  After every history of operations (connects, takeovers,
+   disconnects, expiry ticks at arbitrary times, ...) the specification monitor reports
+   - no stale index entry: every entry of the topic index belongs to a session that is registered and
+     holds that subscription; in particular an identifier without a session has no entry;
+   - no unjustified delivery: every PUBLISH the broker forwards to a connection (or re-sends when a
+     session is resumed) carries a topic that the CURRENT session of the connection's identifier has
+     subscribed to, where the monitor forgets the subscriptions of an identifier whenever its session
+     is discarded (the identifier leaves Clients) or replaced by a clean start.  So a connection that
+     reuses the identifier of a discarded session receives nothing because of the old session.
+   These are the clauses the pre-fix code violated (C15_prefix_expiry_refuted below reports both tags
+   on the pre-fix trace). *)
+Theorem C15_nothing_left : forall (k : caps) (ops : list op),
+  Forall (fun v => v_tag v <> V15_stale_index /\ v_tag v <> V15_unjustified) (mon15 k (model_obs k ops)).
+Proof. exact mon15_nothing_left. Qed.
 
 Theorem C15_index_belongs_to_sessions : forall (k : caps) (ops : list op),
   ixinv (fold_left (fun s o => fst (step k s o)) ops init).
@@ -98,7 +100,7 @@ Example C15_nonvacuous :
   flat_map (fun t => pkts_to 2 (t_outs t)) (trace caps10 init hist1) = [PConnack 0 false; PDisconnect 130].
 Proof. vm_compute. repeat split. Qed.
 
-Print Assumptions C15_nothing_left_partial.
+Print Assumptions C15_nothing_left.
 Print Assumptions C15_index_belongs_to_sessions.
 Print Assumptions C15_when.
 Print Assumptions C15_never_while_connected.
